@@ -67,6 +67,7 @@ def generate(ck):
     # the error still SHRINKS under refinement - judged by its rate only
     descs.append({"cls": "ideal", "ratio": 0.3, "r": 4, "t_end": 1.0, "uniform_nt": True})
     descs.append({"cls": "single", "table": {"kind": "synthetic", "family": "const-diffusivity", "prm": [0.3, 0.6, 0.2], "n": 200, "p_lo": 50.0, "p_hi": 9000.0, "grid": "uniform", "seed": 0}, "p_i": 8000.0, "p_f": 3000.0, "r": 2, "t_end": 0.5, "uniform_nt": True})
+    descs.append({"cls": "ideal", "ratio": 0.3, "r": 1, "t_end": 0.5, "fine": True})
     descs.append(dict(descs[0], decoy=True, t_end=5.0))
     descs.append(dict(descs[3], decoy=True, t_end=4.0))
     n = 2 if ck.tier == "quick" else 200
@@ -76,6 +77,8 @@ def generate(ck):
         u = i % 4
         if u == 0:
             descs.append({"cls": "ideal", "ratio": float(rng.choice([0.0, 0.5, 0.9, 0.999, float(rng.random())])), "r": r, "t_end": t_end})
+            if i % 40 == 8:
+                descs.append({"cls": str(rng.choice(["ideal", "single"])), "table": {"kind": "synthetic", "family": "const-diffusivity", "prm": [float(v) for v in rng.random(3)], "n": 60, "p_lo": 50.0, "p_hi": 9000.0, "grid": "uniform", "seed": 1}, "p_i": 8000.0, "p_f": float(rng.uniform(500, 7000)), "ratio": float(rng.random()), "r": 1, "t_end": float(rng.uniform(0.3, 1.0)), "fine": True})
             if i % 16 == 0:
                 descs.append({"cls": "ideal", "ratio": float(rng.choice([0.0, 0.5, 0.9, float(rng.random())])), "r": int(rng.choice([2, 4, 8])), "t_end": float(rng.uniform(0.3, 2.0)), "uniform_nt": True})
             continue
@@ -114,6 +117,8 @@ def run_case(ck, desc):
     theta = desc.get("theta")  # parabolic refinement: uniform dt = theta dx^2 (nt grows like nx^2)
     if theta:
         rungs = [10, 20, 40] + ([80] if ck.tier == "thorough" else [])
+    if desc.get("fine"):
+        rungs = [500, 1000, 2000]  # beyond any size at which a solver might switch algorithms
     coarse_nt = desc.get("coarse_nt")  # space-only refinement on a fixed, coarse output time grid
     if coarse_nt:
         rungs = [50, 100, 200, 400, 800]
